@@ -11,7 +11,13 @@ use std::time::Duration;
 
 pub const APP_CONTEXT: &str = "1.2.840.10008.3.1.1.1";
 
-pub struct Wire(pub TcpStream);
+/// `timed_out` is set when a read gave up waiting (as opposed to the peer closing): that is an
+/// infrastructure condition (overloaded machine), never an observation about the tool.
+pub struct Wire(pub TcpStream, pub bool);
+
+/// Reads are event driven (they return as soon as the peer writes or closes); this limit only
+/// bounds the wait for a peer that does neither.
+pub const WAIT: Duration = Duration::from_secs(600);
 
 impl Wire {
     pub fn connect(port: u16, timeout: Duration) -> std::io::Result<Wire> {
@@ -19,28 +25,38 @@ impl Wire {
         s.set_read_timeout(Some(timeout))?;
         s.set_write_timeout(Some(timeout))?;
         s.set_nodelay(true)?;
-        Ok(Wire(s))
+        Ok(Wire(s, false))
     }
     pub fn from_stream(s: TcpStream, timeout: Duration) -> std::io::Result<Wire> {
         s.set_read_timeout(Some(timeout))?;
         s.set_write_timeout(Some(timeout))?;
         s.set_nodelay(true)?;
-        Ok(Wire(s))
+        Ok(Wire(s, false))
     }
     pub fn send(&mut self, pdu: &Pdu) -> std::io::Result<()> {
         let mut buf = Vec::new();
         dicom_ul::write_pdu(&mut buf, pdu).map_err(|e| std::io::Error::new(std::io::ErrorKind::Other, e.to_string()))?;
         self.0.write_all(&buf)
     }
-    /// None = connection closed / timed out / unreadable PDU.
+    fn read_all(&mut self, buf: &mut [u8]) -> Option<()> {
+        match self.0.read_exact(buf) {
+            Ok(()) => Some(()),
+            Err(e) => {
+                if matches!(e.kind(), std::io::ErrorKind::WouldBlock | std::io::ErrorKind::TimedOut) { self.1 = true; }
+                None
+            }
+        }
+    }
+    pub fn timed_out(&self) -> bool { self.1 }
+    /// None = connection closed / unreadable PDU / gave up waiting (then `timed_out()` is true).
     pub fn recv(&mut self) -> Option<Pdu> {
         let mut head = [0u8; 6];
-        self.0.read_exact(&mut head).ok()?;
+        self.read_all(&mut head)?;
         let len = u32::from_be_bytes([head[2], head[3], head[4], head[5]]) as usize;
         if len > 64 << 20 { return None; }
         let mut buf = vec![0u8; 6 + len];
         buf[..6].copy_from_slice(&head);
-        self.0.read_exact(&mut buf[6..]).ok()?;
+        self.read_all(&mut buf[6..])?;
         dicom_ul::read_pdu(&buf[..], dicom_ul::pdu::MAXIMUM_PDU_SIZE, false).ok().flatten()
     }
 }
